@@ -506,6 +506,12 @@ static int choose(int n, int kind = 0)
   }
   choices.push_back((unsigned char)idx);
   nalt.push_back((unsigned char)n);
+  if (tracing && steplog && steplog->size() < 200000) {
+    static const char *names[3][8] = {{"choice:sched 0", "choice:sched 1", "choice:sched 2", "choice:sched 3", "choice:sched 4", "choice:sched 5", "choice:sched 6", "choice:sched 7"},
+        {"choice:notify 0", "choice:notify 1", "choice:notify 2", "choice:notify 3", "choice:notify 4", "choice:notify 5", "choice:notify 6", "choice:notify 7"},
+        {"choice:store commits now", "choice:store stays buffered", "?", "?", "?", "?", "?", "?"}};
+    steplog->push_back(StepRec{(unsigned char)me, names[kind < 3 ? kind : 0][idx & 7], 0});
+  }
   return idx;
 }
 
@@ -526,8 +532,13 @@ static void schedule(const char *op, uintptr_t addr)
     return;
   RtGuard rtg;
   vw_flush();
-  if (!SB[me].empty() && !(op[0] == 'a' && strcmp(op, "atomic-load") == 0) && strcmp(op, "volatile-load") != 0)
-    sb_flush();  // buffered stores only stay behind while the thread performs loads
+  // buffered stores only stay behind while the thread performs loads: a thread that is about to
+  // block, yield or exit drains its buffer now; one that is about to perform another kind of
+  // operation drains it when it is actually resumed to perform it (below), so that other threads
+  // can still run - and see the old values - in between
+  const bool op_is_load = strcmp(op, "atomic-load") == 0 || strcmp(op, "volatile-load") == 0;
+  if (!SB[me].empty() && T[me].st != RUNNABLE)
+    sb_flush();
   if (++steps > max_steps) {
     std::string d = "step horizon " + std::to_string(max_steps) + " exceeded; " + thread_states();
     finish_execution(4, "no-termination|step horizon exceeded", d.c_str());
@@ -608,6 +619,8 @@ static void schedule(const char *op, uintptr_t addr)
   }
   // logged when the thread actually proceeds with (op, addr)
   if (T[me].st != DONE) {
+    if (!SB[me].empty() && !op_is_load)
+      sb_flush();
     dep_update(op, addr);
     if (steplog->size() < 200000)
       steplog->push_back(StepRec{(unsigned char)me, op, addr});
@@ -834,6 +847,8 @@ void __tsan_write_range(void *a, long n)
         e.val = (uint64_t)v;                                                                           \
         e.pub = mo_rel(mo) ? Cth[me] : (HasRelFence[me] ? RelFence[me] : VC());                        \
         Cth[me].c[me]++;                                                                               \
+        own_mods_any[me]++; /* the thread did something: a following load is not a spin */            \
+        TH[me] = mix64(TH[me], 0x6275666665726564ull); /* state hash: this store is still buffered */ \
         SB[me].push_back(e);                                                                           \
         return;                                                                                        \
       }                                                                                                \
@@ -955,6 +970,8 @@ static void *tramp(void *p)
     }
   }
   void *r = T[me].fn(T[me].arg);
+  if (!SB[me].empty())
+    point("thread-end", nullptr);  // other threads may still run before the exiting thread's buffered stores drain
   if (det_on) {
     RtGuard g;
     Cth[me].c[me]++;
